@@ -136,6 +136,23 @@ func projGen1(r *rand.Rand) *project {
 	p.Extra["regex-assembly/include/.inc1.ra.swp"] = "b0VIM"
 	p.Extra["regex-assembly/exclude/.gitkeep"] = ""
 	p.Extra["rules/.gitkeep"] = ""
+	// stray files among the assembly files whose names are not rule file names (they sort in front of, between and
+	// behind the real ones); their content is already in canonical layout, so that format --all leaves them alone
+	stray := raHeader + "\n\nstrayentry\n"
+	p.Extra["regex-assembly/000-notes.ra"] = stray
+	p.Extra["regex-assembly/zz-scratch.ra"] = stray
+	if len(p.Files) > 0 && len(p.Files[0].Rules) > 0 {
+		id := p.Files[0].Rules[0].ID
+		p.Extra["regex-assembly/"+id+" copy.ra"] = stray
+		p.Extra["regex-assembly/"+id+"-draft.ra"] = stray
+		p.Extra["regex-assembly/wip-"+id+".ra"] = stray
+		p.Extra["regex-assembly/1"+id+".ra"] = stray
+		// a rule id without the extension: not an assembly file
+		other := p.Files[len(p.Files)-1].Rules[len(p.Files[len(p.Files)-1].Rules)-1].ID
+		if _, has := p.Files[len(p.Files)-1].Sources[other]; !has {
+			p.Extra["regex-assembly/"+other] = "strayentry\n"
+		}
+	}
 	return p
 }
 
